@@ -254,6 +254,13 @@ fn canonical_target(path: &Path) -> PathBuf {
     }
 }
 
+/// Verification hook: the crate-private target normalisation.
+#[cfg(feature = "verif")]
+#[must_use]
+pub fn verif_canonical_target(path: &Path) -> PathBuf {
+    canonical_target(path)
+}
+
 /// Write output to a file or stdout.
 ///
 /// When `output_path` is `Some`, the content is written to the file (creating parent
